@@ -49,7 +49,8 @@ type c16EStmt struct {
 	param     bool
 }
 
-// c16EmptyStmts: the statement alphabet. full = every template x every condition; the reduced alphabets (pairs,
+// c16EmptyStmts: the statement alphabet (compound statements with empty bodies, code-less expression statements, and
+// ordinary statements that look redundant). full = every template x every condition; the reduced alphabets (pairs,
 // triples) are sub-lists of it, picked by name.
 func c16EmptyStmts() []c16EStmt {
 	one := []struct{ name, tpl string }{
@@ -100,6 +101,14 @@ func c16EmptyStmts() []c16EStmt {
 		c16EStmt{"expr[group]", "(vi)\n", false},
 		c16EStmt{"expr[lit]", "5\n", false},
 	)
+	// ordinary statements a transpiler could take for redundant (assigning a variable to itself, neutral operands,
+	// values never used, definitions of zero values): each must still leave its block well-formed
+	for _, st := range []string{"vi = vi", "vi += 0", "vi -= 0", "vi *= 1", "vi /= 1", "vi = vi + 0", "vi = (vi)", "vi = 1", "vs = vs", "vs += \"\"", "vs = vs + \"\"", "vs = \"s\"",
+		"vb = vb", "vb = !!vb", "vb = vb && true", "vb = vb || false", "vb = true", "vi, vs = vi, vs", "vi, vb = vi, vb", "xi = xi", "xi[0] = xi[0]", "xi[0] = 1",
+		"d := vi", "d := 0", "d := \"\"", "d := false", "var d int", "var d string", "var d bool", "var d []int", "var d int = 0", "var d = vs", "d, e := vi, vs", "d := xi", "d := []int{}",
+		"print()", "print(\"\")", "fb()", "len(vs)", "len(xi)", "itoa(vi)", "copy(xi, xi)", "vi++", "vi--", "vi == vi", "vs + \"\"", "!vb"} {
+		out = append(out, c16EStmt{"plain[" + st + "]", st + "\n", false})
+	}
 	return out
 }
 
